@@ -90,6 +90,25 @@ func (e *failFrom) ToJSONRPCError() (jsonrpc.JSONRPCError, error) {
 }
 func (e *failFrom) FromJSONRPCError(j jsonrpc.JSONRPCError) error { return errors.New("refuse") }
 
+// a codec error that reads its data back as the type it put there (a string)
+type dataErr struct {
+	M string
+	D string
+}
+
+func (e *dataErr) Error() string { return e.M }
+func (e *dataErr) ToJSONRPCError() (jsonrpc.JSONRPCError, error) {
+	return jsonrpc.JSONRPCError{Code: 46, Message: e.M, Data: e.D}, nil
+}
+func (e *dataErr) FromJSONRPCError(j jsonrpc.JSONRPCError) error {
+	d, ok := j.Data.(string)
+	if !ok {
+		return fmt.Errorf("data is %T, not the string that was sent", j.Data)
+	}
+	e.M, e.D = j.Message, d
+	return nil
+}
+
 type valReg struct{ M string } // registered as a value type; handlers may return the value or a pointer
 
 func (e valReg) Error() string { return e.M }
@@ -124,6 +143,8 @@ func mkErr(kind int, msg string, n int) error {
 		return fmt.Errorf("ctx: %w", &marshErr{msg, n})
 	case 12: // a codec error wrapped
 		return fmt.Errorf("ctx: %w", &codecErr{C: 41, M: msg})
+	case 13:
+		return &dataErr{M: msg, D: fmt.Sprintf("payload-%d", n)}
 	}
 	return nil
 }
@@ -159,6 +180,8 @@ func regType(kind int) interface{} {
 		return new(*failFrom)
 	case 10:
 		return new(valReg)
+	case 13:
+		return new(*dataErr)
 	}
 	return nil
 }
@@ -191,10 +214,10 @@ type errCase struct {
 }
 
 func errorsFamily(seed uint64, tier string, args []string) {
-	same := [][2]int{{11, 1}, {12, 2}, {13, 3}, {14, 4}, {15, 5}, {16, 6}, {17, 7}, {20, 10}}
+	same := [][2]int{{11, 1}, {12, 2}, {13, 3}, {14, 4}, {15, 5}, {16, 6}, {17, 7}, {20, 10}, {46, 13}}
 	disjoint := [][2]int{{21, 1}, {22, 2}, {23, 3}, {24, 4}, {25, 5}, {26, 6}, {27, 7}, {30, 10}}
 	swapped := [][2]int{{11, 2}, {12, 1}, {13, 4}, {14, 3}, {15, 5}, {16, 6}, {17, 7}, {20, 10}, {40, 3}, {41, 4}, {42, 1}, {44, 3}, {45, 5}}
-	codecCodes := [][2]int{{40, 4}, {41, 4}, {42, 4}, {44, 7}, {45, 5}, {13, 3}, {11, 1}}
+	codecCodes := [][2]int{{40, 4}, {41, 4}, {42, 4}, {44, 7}, {45, 5}, {13, 3}, {11, 1}, {46, 13}}
 	relations := []struct {
 		name string
 		s, c [][2]int
@@ -226,7 +249,7 @@ func errorsFamily(seed uint64, tier string, args []string) {
 			if err != nil {
 				panic(err)
 			}
-			for kind := 0; kind <= 12; kind++ {
+			for kind := 0; kind <= 13; kind++ {
 				for mi, msg := range msgs {
 					if tier == "quick" && (kind+mi+ri)%3 != 0 && mi > 1 {
 						continue
@@ -250,6 +273,9 @@ func errorsFamily(seed uint64, tier string, args []string) {
 								c.Fields = string(b)
 							case *codecErr:
 								b, _ := json.Marshal(map[string]interface{}{"code": v.C, "message": v.M, "data": v.Data})
+								c.Fields = string(b)
+							case *dataErr:
+								b, _ := json.Marshal(map[string]interface{}{"code": 46, "message": v.M, "data": v.D})
 								c.Fields = string(b)
 							case *bothErr:
 								b, _ := json.Marshal(map[string]interface{}{"code": v.C, "message": v.M, "data": v.Data, "X": v.X})
@@ -278,6 +304,8 @@ func errorsFamily(seed uint64, tier string, args []string) {
 							c.Oracle = fmt.Sprintf("handler returned 5, caller got %d", c.Val)
 						case (kind == 11 || kind == 12) && e != nil && (c.Type != "*jsonrpc.JSONRPCError" || e.Error() != "ctx: "+msg || !strings.Contains(c.Fields, `"code":1,`)):
 							c.Oracle = fmt.Sprintf("an unregistered (wrapping) error did not arrive as the generic error with code 1 and its message: %s %q %s", c.Type, e.Error(), c.Fields)
+						case (rel.name == "same" || rel.name == "codec-codes") && kind == 13 && (c.Type != "*main.dataErr" || !strings.Contains(c.Fields, fmt.Sprintf(`"payload-%d"`, n))):
+							c.Oracle = "a codec error registered under its code on both sides did not arrive as its type with the data it sent: " + c.Type + " " + c.Fields
 						case kind == 8 && e != nil && (c.Type != "*jsonrpc.JSONRPCError" || e.Error() != msg):
 							c.Oracle = fmt.Sprintf("unregistered error did not arrive as the generic error with its message: %s %q", c.Type, e.Error())
 						case rel.name == "same" && kind == 3 && (c.Type != "*main.marshErr" || c.Fields != fmt.Sprintf(`{"M":%s,"N":%d}`, mustQ(msg), n)):
